@@ -551,6 +551,7 @@ func c17RaceCase(cfg c17Cfg, idx int) string {
 // generator
 
 func c17Gen(r *Rng, tier string, idx int) (string, func() string) {
+	caseTimeout = 180 * time.Second // a case may include the one -race build of the run; race runs are slow
 	if inner := os.Getenv("C17_INNER"); inner != "" {
 		// we are the -race child: run exactly the scenario the parent drew, in this process, hooks quiet
 		var cfg c17Cfg
@@ -589,6 +590,7 @@ func c17Gen(r *Rng, tier string, idx int) (string, func() string) {
 		}
 	} else {
 		cfg.runMs = r.Pick(500, 800)
+		cfg.saveGap = idx%nq == 1 // one traced run per round includes the status thread's delayed save
 	}
 	in := cfg.String()
 	if cfg.kind == "race" {
